@@ -12,7 +12,7 @@
                                            → ok <len> <adler32> file=… part=… idx=… | err:<E> …
     verify <q 0|1> <now>                   → ok | err:<E>
     save / restore                         → ok                                 (around a damage)
-    dmg del <name> | dmg set <name> <hex|-> | dmg trunc <name> <n> | dmg flip <name> <off> <xor> | dmg deldat <date> | dmg delidx <date>  → ok
+    dmg del <name> | dmg set <name> <hex|-> | dmg trunc <name> <n> | dmg flip <name> <off> <xor> | dmg deldat <date> | dmg delidx <date> | dmg cpidx <from> <to> | dmg truncdat <date> <nlines>  → ok
 -/
 import ZodbModel.DriverLib
 import ZodbModel.Repozo
@@ -205,6 +205,20 @@ def rzStep (s : DState) (toks : List String) : DState × String :=
     match d.toNat? with
     | some d => ({ s with repo := delDat d s.repo }, "ok")
     | none => (s, "bad-op")
+  | ["dmg", "cpidx", a, b] =>        -- <b>.index := copy of <a>.index
+    match a.toNat?, b.toNat? with
+    | some a, some b =>
+      (match getK a s.repo.idxs with
+       | some ix => ({ s with repo := { s.repo with idxs := setK b ix s.repo.idxs } }, "ok")
+       | none => (s, "noidx"))
+    | _, _ => (s, "bad-op")
+  | ["dmg", "truncdat", d, n] =>     -- keep the first n lines of <d>.dat
+    match d.toNat?, n.toNat? with
+    | some d, some n =>
+      (match getK d s.repo.dats with
+       | some ls => ({ s with repo := { s.repo with dats := setK d (ls.take n) s.repo.dats } }, "ok")
+       | none => (s, "nodat"))
+    | _, _ => (s, "bad-op")
   | ["dmg", "delidx", d] =>
     match d.toNat? with
     | some d => ({ s with repo := delIdx d s.repo }, "ok")
